@@ -53,6 +53,7 @@ def correspondence(ctx, corr):
     corr.exhaustive = True
     common.run_family(ctx, corr, 'c03_noraise', {'count': 4 if ctx.quick else 40})
     module_level(ctx, corr)
+    outcome_level(ctx, corr)
     from xdoctest import checker, directive
     rng = ctx.sub_rng('units')
     wants = _want_texts(rng, 1500 if ctx.quick else 20000)
@@ -167,6 +168,54 @@ def module_level(ctx, corr):
         shutil.rmtree(d, ignore_errors=True)
 
 
+OUTCOME_TEXTS = [
+    ">>> import pytest\n>>> print(t(0))\n0\n>>> pytest.fail('boom %d' % t(1))\n>>> print(t(2))\n",
+    ">>> import pytest\n>>> pytest.fail('boom %d' % t(0))\nsome text\n",
+    ">>> import pytest\n>>> pytest.fail('boom %d' % t(0))\nTraceback (most recent call last):\n    ...\nValueError: other\n",
+    ">>> import pytest\n>>> with pytest.raises(ValueError):\n...     x = t(0)\n>>> print(t(1))\n",
+    ">>> import _pytest.outcomes\n>>> raise _pytest.outcomes.Failed('direct %d' % t(0))\n",
+    ">>> import pytest\n>>> pytest.xfail('expected to fail %d' % t(0))\n>>> print(t(1))\n",
+    ">>> raise GeneratorExit('g %d' % t(0))\n>>> print(t(1))\n",
+]
+
+
+def outcome_level(ctx, corr):
+    """exceptions that do not derive from Exception (pytest's Failed / XFailed outcome classes, GeneratorExit): they
+    may leave run() as they are, or be recorded as a failure, but the doctest must never be reported PASSED and the
+    statements after the raising one must not run"""
+    import warnings as _w
+    from xdoctest import core
+    from ..gen import doctests as gd
+    for text in OUTCOME_TEXTS:
+        for oe in ('return', 'raise'):
+            for pm in (False, True):
+                corr.count('outcome-exceptions')
+                inp = {'text': text, 'run': {'on_error': oe, 'pytest_mode': pm}, 'outcome_exception': True}
+                with _w.catch_warnings():
+                    _w.simplefilter('ignore')
+                    exs = list(core.parse_docstr_examples(text, callname='t', style='freeform', fpath='<verif>', lineno=1))
+                ex = exs[0]
+                ex.mode = 'pytest' if pm else 'native'
+                ns, T = gd.make_namespace({})
+                ex.global_namespace = ns
+                try:
+                    summary = ex.run(on_error=oe, verbose=0)
+                    ended = 'returned passed=%s failed=%s' % (summary['passed'], summary['failed'])
+                    bad = bool(summary['passed']) or not summary['failed']
+                except BaseException as e:   # noqa
+                    ended = 'raised ' + type(e).__name__
+                    bad = type(e).__name__ == 'Skipped'
+                corr.nontriv(('outcome', text, oe, pm))
+                corr.tag('outcome:' + ended.split()[0])
+                first_raising = [int(__import__('re').search(r't\((\d)\)', l).group(1)) for l in text.split('\n')
+                                 if 't(' in l and ('fail(' in l or 'raise ' in l or 'x = t' in l)][0]
+                later_ran = [k for k in T if k > first_raising]
+                if bad or later_ran:
+                    corr.expect_fail('outcome-exceptions', inp, 'not passed; nothing after the raising statement runs',
+                                     {'ended': ended, 'TRACE': list(T)},
+                                     'an exception raised by doctest code was swallowed (%s)' % ended)
+
+
 def search(ctx, corr, broken):
     return common.search_families(ctx, corr, [('c03_table', {}), ('c03_noraise', {'count': 10})])
 
@@ -180,6 +229,14 @@ def replay_finding(ctx, finding):
 
 
 def replay(ctx, failing):
+    if failing.get('input', {}).get('outcome_exception'):
+        from ..core import Corr
+        c2 = Corr()
+        outcome_level(ctx, c2)
+        bad = [e for e in c2.expect_failures if e['input'] == failing['input']]
+        print(failing['input']['text'])
+        print('now: %s' % (bad[0]['impl'] if bad else 'not reported passed'))
+        return bool(bad)
     if 'module_source' in failing.get('input', {}):
         from ..core import Corr
         c2 = Corr()
